@@ -102,6 +102,94 @@ func Run[X any]() {
 
 func main() { Run[int32]() }
 `, "1 1 1 2"),
+	witness.Src("local_type_under_two_type_parameters_all_argument_pairs", "", `package main
+
+// a type declared inside a generic function with TWO type parameters: every pair of
+// type arguments owns its own local type (Instances.tla: the instance map is equality
+// of (nesting arguments, arguments)), whatever the hash of the argument lists
+func mk[A, B any]() any {
+	type local struct {
+		a A
+		b B
+	}
+	return local{}
+}
+
+// makes a value of its own local type and says whether x holds one
+func pr[A, B any](x any) (any, bool) {
+	type probe struct{ n int32 }
+	_, ok := x.(probe)
+	return probe{1}, ok
+}
+
+func mkp[A, B any]() any {
+	v, _ := pr[A, B](nil)
+	return v
+}
+
+func own[A, B any](x any) bool {
+	_, ok := pr[A, B](x)
+	return ok
+}
+
+func main() {
+	var vals []any
+	vals = append(vals, mk[int8, int8]())
+	vals = append(vals, mk[int8, int16]())
+	vals = append(vals, mk[int8, int32]())
+	vals = append(vals, mk[int8, int64]())
+	vals = append(vals, mk[int8, bool]())
+	vals = append(vals, mk[int8, string]())
+	vals = append(vals, mk[int16, int8]())
+	vals = append(vals, mk[int16, int16]())
+	vals = append(vals, mk[int16, int32]())
+	vals = append(vals, mk[int16, int64]())
+	vals = append(vals, mk[int16, bool]())
+	vals = append(vals, mk[int16, string]())
+	vals = append(vals, mk[int32, int8]())
+	vals = append(vals, mk[int32, int16]())
+	vals = append(vals, mk[int32, int32]())
+	vals = append(vals, mk[int32, int64]())
+	vals = append(vals, mk[int32, bool]())
+	vals = append(vals, mk[int32, string]())
+	vals = append(vals, mk[int64, int8]())
+	vals = append(vals, mk[int64, int16]())
+	vals = append(vals, mk[int64, int32]())
+	vals = append(vals, mk[int64, int64]())
+	vals = append(vals, mk[int64, bool]())
+	vals = append(vals, mk[int64, string]())
+	vals = append(vals, mk[bool, int8]())
+	vals = append(vals, mk[bool, int16]())
+	vals = append(vals, mk[bool, int32]())
+	vals = append(vals, mk[bool, int64]())
+	vals = append(vals, mk[bool, bool]())
+	vals = append(vals, mk[bool, string]())
+	vals = append(vals, mk[string, int8]())
+	vals = append(vals, mk[string, int16]())
+	vals = append(vals, mk[string, int32]())
+	vals = append(vals, mk[string, int64]())
+	vals = append(vals, mk[string, bool]())
+	vals = append(vals, mk[string, string]())
+	m := map[any]int{}
+	eq := 0
+	for i, v := range vals {
+		m[v] = i
+		for j, w := range vals {
+			if i != j && v == w {
+				eq++
+			}
+		}
+	}
+	println(len(vals), len(m), eq)
+	// a local type whose layout does not mention the type parameters
+	ps := []any{mkp[int8, int16](), mkp[int16, int8](), mkp[int32, string](), mkp[string, int32](), mkp[bool, int64](), mkp[int64, bool]()}
+	pm := map[any]bool{}
+	for _, p := range ps {
+		pm[p] = true
+	}
+	println(len(pm), own[int8, int16](ps[0]), own[int8, int16](ps[1]), own[int16, int8](ps[1]), own[string, int32](ps[2]), own[bool, int64](ps[5]), own[int64, bool](ps[5]))
+}
+`, "36 36 0", "6 true false true false false true"),
 	{Name: "qualified_generic_func_explicit_inst_in_generic_code", Key: "qualified_generic_func_explicit_inst_in_generic_code", Files: map[string]string{
 		"main.go": `package main
 
